@@ -1,6 +1,256 @@
-//! C17: implementation-side case runners (see props/c17.py). Stub until the property is built.
+//! C17: bitmap fonts (src/fonts.rs, DCS `CTerm:Font:`, XBin/ADF/IDF/IcyDraw font slots) and TheDraw fonts
+//! (src/tdf_font/mod.rs) through the public API only.  Kinds (all prefixed `c17.`), see props/c17.py:
+//!
+//!   c17.fb <hex>                         BitFont::from_bytes               -> font observation | err class
+//!   c17.c8 <w> <h> <hex> / c17.basic …    BitFont::create_8 / from_basic    -> font observation
+//!   c17.psf2 <font>                      to_psf2_bytes                     -> bytes
+//!   c17.raw  <font>                      convert_to_u8_data                -> bytes
+//!   c17.ansi <slot> <font>               encode_as_ansi                    -> bytes of the string
+//!   c17.dcs  <slot> <hex>                feed bytes to ansi::Parser        -> [errors, has_font, font observation]
+//!   c17.embed <ext> <font>               Buffer::to_bytes / from_bytes     -> font observation of slot 0 after reload
+//!   c17.builtin ansi <n> | sauce <i>     from_ansi_font_page / from_sauce_name(SAUCE_FONT_NAMES[i])
+//!   c17.nbuiltin                         [ANSI_FONTS, SAUCE_FONT_NAMES.len()]
+//!   c17.tdfenc single|bundle <fonts>     as_tdf_bytes / create_font_bundle -> bytes | err class
+//!   c17.tdfdec <hex>                     from_tdf_bytes                    -> fonts observation | err class
+//!   c17.utf8 <hex>                       [from_utf8 is ok, lossy bytes…]
+//!
+//! <font>  = <w> <h> <length> <n> <gh> <hex of n*gh bytes>   (n glyphs with codes 0..n, each gh row bytes)
+//! <fonts> = <k> { <namehex> <type 0|1|2> <spaces> <m> { <index 0..93> <w> <h> <datahex> }*m }*k
+//! font observation = [w, h, length, n, { code, rows, row bytes… }*n in code order]
+//! fonts observation = [k, { namelen, name bytes…, type, spaces, 94 × has_char, status, len, bytes… }*k] where the
+//!   last part is `as_tdf_bytes` of a copy of the decoded font with empty name and spaces 0 (status 0 = Ok; the
+//!   only way the public API shows the glyph table; the python oracle parses those bytes with its own reader).
+use crate::util::{int, unhex};
 use crate::Obs;
+use icy_engine::{ansi, BitFont, Buffer, BufferParser, Caret, FontError, FontGlyph, FontType, Glyph, SaveOptions, Size, TdfError, TheDrawFont};
+use std::collections::HashMap;
+use std::path::Path;
 
-pub fn run(_kind: &str, _args: &[&str]) -> Option<Obs> {
-    None
+// anyhow::Error without naming the anyhow crate (the harness depends on icy_engine only)
+trait ErrOf {
+    type E;
+}
+impl<T, E> ErrOf for Result<T, E> {
+    type E = E;
+}
+type AnyErr = <icy_engine::EngineResult<()> as ErrOf>::E;
+
+fn font_obs(f: &BitFont) -> Vec<i64> {
+    let mut keys: Vec<u32> = f.glyphs.keys().map(|c| *c as u32).collect();
+    keys.sort_unstable();
+    let mut v = vec![f.size.width as i64, f.size.height as i64, f.length as i64, keys.len() as i64];
+    for k in keys {
+        let g = &f.glyphs[&char::from_u32(k).unwrap()];
+        v.push(k as i64);
+        v.push(g.data.len() as i64);
+        v.extend(g.data.iter().map(|b| *b as i64));
+    }
+    v
+}
+
+fn font_err(e: &AnyErr) -> String {
+    match e.downcast_ref::<FontError>() {
+        Some(FontError::FontNotFound) => "FontNotFound".into(),
+        Some(FontError::MagicNumberMismatch) => "MagicNumberMismatch".into(),
+        Some(FontError::UnsupportedVersion(_)) => "UnsupportedVersion".into(),
+        Some(FontError::LengthMismatch(_, _)) => "LengthMismatch".into(),
+        Some(FontError::UnknownFontFormat(_)) => "UnknownFontFormat".into(),
+        None => format!("other:{}", e.to_string().chars().take(60).collect::<String>()),
+    }
+}
+
+fn tdf_err(e: &AnyErr) -> String {
+    match e.downcast_ref::<TdfError>() {
+        Some(TdfError::FileTooShort) => "FileTooShort".into(),
+        Some(TdfError::IdMismatch) => "IdMismatch".into(),
+        Some(TdfError::NameTooLong(_)) => "NameTooLong".into(),
+        Some(TdfError::UnsupportedTtfType(_)) => "UnsupportedTtfType".into(),
+        Some(TdfError::DataOverflow(_)) => "DataOverflow".into(),
+        Some(TdfError::GlyphOutsideFontDataSize(_)) => "GlyphOutsideFontDataSize".into(),
+        Some(TdfError::LetterSpaceTooMuch(_)) => "LetterSpaceTooMuch".into(),
+        Some(TdfError::IdLengthMismatch(_)) => "IdLengthMismatch".into(),
+        Some(TdfError::FontIndicatorMismatch) => "FontIndicatorMismatch".into(),
+        None => format!("other:{}", e.to_string().chars().take(60).collect::<String>()),
+    }
+}
+
+/// a BitFont whose glyph table is filled here (not by the crate's own chunking code)
+fn build_font(a: &[&str]) -> (BitFont, usize) {
+    let (w, h, length, n, gh) = (int(a[0]) as i32, int(a[1]) as i32, int(a[2]) as i32, int(a[3]) as usize, int(a[4]) as usize);
+    let data = unhex(a[5]);
+    let mut f = BitFont::create_8("c17 test font", 8, 1, &[]);
+    f.size = Size::new(w, h);
+    f.length = length;
+    let mut m = HashMap::new();
+    for i in 0..n {
+        m.insert(char::from_u32(i as u32).unwrap(), Glyph { data: data[i * gh..(i + 1) * gh].to_vec() });
+    }
+    f.glyphs = m;
+    (f, 6)
+}
+
+fn bytes_obs(b: &[u8]) -> Vec<i64> {
+    b.iter().map(|x| *x as i64).collect()
+}
+
+fn build_tdf(a: &[&str]) -> Vec<TheDrawFont> {
+    let mut i = 0;
+    let k = int(a[i]) as usize;
+    i += 1;
+    let mut out = Vec::new();
+    for _ in 0..k {
+        let name = String::from_utf8(unhex(a[i])).expect("test names are utf-8");
+        let ty = match int(a[i + 1]) {
+            0 => FontType::Outline,
+            1 => FontType::Block,
+            _ => FontType::Color,
+        };
+        let spaces = int(a[i + 2]) as i32;
+        let m = int(a[i + 3]) as usize;
+        i += 4;
+        let mut f = TheDrawFont::new(name, ty, spaces);
+        for _ in 0..m {
+            let idx = int(a[i]) as u32;
+            let g = FontGlyph {
+                size: Size::new(int(a[i + 1]) as i32, int(a[i + 2]) as i32),
+                data: unhex(a[i + 3]),
+            };
+            i += 4;
+            f.set_glyph(char::from_u32(33 + idx).unwrap(), g);
+        }
+        out.push(f);
+    }
+    out
+}
+
+pub fn run(kind: &str, args: &[&str]) -> Option<Obs> {
+    Some(match kind {
+        "c17.fb" => match BitFont::from_bytes("c17", &unhex(args[0])) {
+            Ok(f) => Ok(font_obs(&f)),
+            Err(e) => Err(font_err(&e)),
+        },
+        "c17.c8" => Ok(font_obs(&BitFont::create_8("c17", int(args[0]) as u8, int(args[1]) as u8, &unhex(args[2])))),
+        "c17.basic" => Ok(font_obs(&BitFont::from_basic(int(args[0]) as u8, int(args[1]) as u8, &unhex(args[2])))),
+        "c17.psf2" => {
+            let (f, _) = build_font(args);
+            match f.to_psf2_bytes() {
+                Ok(b) => Ok(bytes_obs(&b)),
+                Err(e) => Err(font_err(&e)),
+            }
+        }
+        "c17.raw" => {
+            let (f, _) = build_font(args);
+            Ok(bytes_obs(&f.convert_to_u8_data()))
+        }
+        "c17.ansi" => {
+            let (f, _) = build_font(&args[1..]);
+            Ok(bytes_obs(f.encode_as_ansi(int(args[0]) as usize).as_bytes()))
+        }
+        "c17.dcs" => {
+            let slot = int(args[0]) as usize;
+            let mut buf = Buffer::new((80, 25));
+            buf.is_terminal_buffer = true;
+            let mut caret = Caret::default();
+            let mut p = ansi::Parser::default();
+            let mut nerr = 0;
+            for b in unhex(args[1]) {
+                if p.print_char(&mut buf, 0, &mut caret, b as char).is_err() {
+                    nerr += 1;
+                }
+            }
+            let mut v = vec![nerr];
+            match buf.get_font(slot) {
+                Some(f) => {
+                    v.push(1);
+                    v.extend(font_obs(f));
+                }
+                None => v.push(0),
+            }
+            Ok(v)
+        }
+        "c17.embed" => {
+            let (f, _) = build_font(&args[1..]);
+            let mut buf = Buffer::new((80, 25));
+            buf.set_font(0, f);
+            if args[0] == "adf" || args[0] == "idf" {
+                buf.ice_mode = icy_engine::IceMode::Ice; // the only mode these writers accept
+            }
+            let mut opt = SaveOptions::default();
+            opt.lossles_output = true;
+            let bytes = match buf.to_bytes(args[0], &opt) {
+                Ok(b) => b,
+                Err(e) => return Some(Err(format!("save:{}", e.to_string().chars().take(60).collect::<String>()))),
+            };
+            let name = format!("a.{}", args[0]);
+            match Buffer::from_bytes(Path::new(&name), false, &bytes) {
+                Ok(b2) => match b2.get_font(0) {
+                    Some(f2) => Ok(font_obs(f2)),
+                    None => Err("load:no-font-0".into()),
+                },
+                Err(e) => Err(format!("load:{}", e.to_string().chars().take(60).collect::<String>())),
+            }
+        }
+        "c17.builtin" => {
+            let r = if args[0] == "ansi" {
+                BitFont::from_ansi_font_page(int(args[1]) as usize)
+            } else {
+                BitFont::from_sauce_name(icy_engine::SAUCE_FONT_NAMES[int(args[1]) as usize])
+            };
+            match r {
+                Ok(f) => Ok(font_obs(&f)),
+                Err(e) => Err(font_err(&e)),
+            }
+        }
+        "c17.nbuiltin" => Ok(vec![icy_engine::ANSI_FONTS as i64, icy_engine::SAUCE_FONT_NAMES.len() as i64]),
+        "c17.tdfenc" => {
+            let fonts = build_tdf(&args[1..]);
+            let r = if args[0] == "single" { fonts[0].as_tdf_bytes() } else { TheDrawFont::create_font_bundle(&fonts) };
+            match r {
+                Ok(b) => Ok(bytes_obs(&b)),
+                Err(e) => Err(tdf_err(&e)),
+            }
+        }
+        "c17.tdfdec" => match TheDrawFont::from_tdf_bytes(&unhex(args[0])) {
+            Ok(fonts) => {
+                let mut v = vec![fonts.len() as i64];
+                for f in &fonts {
+                    let nb = f.name.as_bytes();
+                    v.push(nb.len() as i64);
+                    v.extend(nb.iter().map(|b| *b as i64));
+                    v.push(match f.font_type {
+                        FontType::Outline => 0,
+                        FontType::Block => 1,
+                        FontType::Color => 2,
+                    });
+                    v.push(f.spaces as i64);
+                    for c in 33u8..127 {
+                        v.push(f.has_char(c) as i64);
+                    }
+                    let mut g = f.clone();
+                    g.name = String::new();
+                    g.spaces = 0;
+                    match g.as_tdf_bytes() {
+                        Ok(b) => {
+                            v.push(0);
+                            v.push(b.len() as i64);
+                            v.extend(bytes_obs(&b));
+                        }
+                        Err(_) => {
+                            v.push(1);
+                            v.push(0);
+                        }
+                    }
+                }
+                Ok(v)
+            }
+            Err(e) => Err(tdf_err(&e)),
+        },
+        "c17.utf8" => {
+            let b = unhex(args[0]);
+            let mut v = vec![std::str::from_utf8(&b).is_ok() as i64];
+            v.extend(bytes_obs(String::from_utf8_lossy(&b).as_bytes()));
+            Ok(v)
+        }
+        _ => return None,
+    })
 }
